@@ -393,6 +393,26 @@ fn step(w: &mut World, ctx: &mut Ctx, st: &Step) -> StepResult {
             let (sk, _) = keys::signing(s, (st.arg(2) % 3) as u8);
             let md = if st.arg(3) % 2 == 0 { Some(SignatureMetadata::new().with_assertion(known_values::NOTE, "meta")) } else { None };
             let e = lib!("add_signature_opt", env.add_signature_opt(&sk, keys::sig_options(s), md));
+            // now and then a holder obscures the inner part of a signature-with-metadata object (the wrapped
+            // `Signature [metadata]`, which keeps its digest), or the whole object of a 'signed' assertion
+            let e = if st.arg(3) % 8 >= 4 {
+                let objs = e.objects_for_predicate(known_values::SIGNED);
+                match objs.first() {
+                    Some(o) => {
+                        let target = if st.arg(3) % 8 >= 6 { o.subject() } else { o.clone() };
+                        let act = match st.arg(4) % 3 {
+                            0 => ObscureAction::Elide,
+                            1 => ObscureAction::Compress,
+                            _ => ObscureAction::Encrypt(sym_key(2)),
+                        };
+                        ctx.probe("signature-object-partly-obscured");
+                        lib!("elide_removing_target_with_action", e.elide_removing_target_with_action(&target, &act))
+                    }
+                    None => e,
+                }
+            } else {
+                e
+            };
             push_plain(w, ctx, e, "DecoSign")
         }
         "DecoSaltAssertion" => {
